@@ -84,8 +84,8 @@ def scenario(v, sid, svc):
         else:
             base["outcome"] = {"kind": "error", "errKind": "wrapmake" if o["kind"] == "wrapped" else "make", "errName": o["name"], "msg": "boom",
                                "flags": [e["flags"]["t"], e["flags"]["tmp"], e["flags"]["f"]]}
-    elif o["kind"] == "service":
-        base["outcome"] = {"kind": "error", "errKind": "service", "errName": o["name"], "msg": "boom", "flags": [o["flags"]["t"], o["flags"]["tmp"], o["flags"]["f"]]}
+    elif o["kind"] in ("service", "joined"):
+        base["outcome"] = {"kind": "error", "errKind": "service" if o["kind"] == "service" else "joinservice", "errName": o["name"], "msg": "boom", "flags": [o["flags"]["t"], o["flags"]["tmp"], o["flags"]["f"]]}
     elif o["kind"] == "plain":
         base["outcome"] = {"kind": "error", "errKind": "plain", "msg": "boom"}
     else:
@@ -165,9 +165,9 @@ def compare(v, o):
             probs.append("body-name:%s-instead-of-%s" % (o["bodyname"], p["bodyname"]))
         if o["bodyflags"] != p["bodyflags"]:
             probs.append("body-flags")
-        if out["kind"] in ("declared", "wrapped", "service", "plain") and o.get("bodymsg") != "boom":
+        if out["kind"] in ("declared", "wrapped", "service", "joined", "plain") and o.get("bodymsg") != "boom":
             probs.append("body-message")
-    if out["kind"] in ("service", "plain"):
+    if out["kind"] in ("service", "joined", "plain"):
         # what the client makes of an undeclared error is not fixed by the property (it may well hand back
         # the service error it finds in the body): only that user code ran and one response was written
         if o["invoked"] is False:
